@@ -26,6 +26,17 @@ Proof.
 Qed.
 Print Assumptions C28_only_proxy.
 
+(* (1b) through handleConnection, whatever the metadata store does: a Metadata request
+        on a ready proxy is either answered with a reply naming only the proxy, or — when
+        the store fails — not answered at all (connection dropped); no other reply exists *)
+Theorem C28_only_proxy_conn : forall store_ok c r host port v,
+  match conn_metadata store_ok c r host port with
+  | Some resp => only_proxy host port resp /\ only_proxy host port (wire_cluster v resp)
+  | None => True
+  end.
+Proof. exact conn_metadata_only_proxy. Qed.
+Print Assumptions C28_only_proxy_conn.
+
 (* (2) topology kept.  [topo] of a topic entry = (error code, name, topic id,
        [(partition id, partition error code, leader epoch)]).
    all topics: the reply lists exactly the cluster's topics, in order, same topology *)
